@@ -1,10 +1,11 @@
 (* C07 -- every control completes and every ticket resolves.  Proofs: Job/JobTickets.v, Job/JobOrder.v,
-   Flag/Flag.v.  PARTIAL in one respect: the statements are safety statements (no flag is ever lost; each
-   control is executed at most once, in order; a raised flag wakes every waiter); that a held flag is
-   eventually released needs fairness of the runtime and is covered by C06 (timer), C10 (queues) and the
-   harness run. *)
+   Job/JobDrain.v, Flag/Flag.v.  Safety: no flag is ever lost; each control is executed at most once, in order; a
+   raised flag wakes every waiter.  Liveness: under an eager runtime (the clock moves only when the task has nothing to
+   do; a sleeping task is woken at its wake-up instant) every queued control is executed within the grace periods in
+   effect, after which every ticket issued so far is resolved except wait-for-end tickets of a command still running.
+   The runtime's own fairness and latency are not modelled (measured by the harness). *)
 From Coq Require Import List Arith NArith String Ascii Bool.
-From WX Require Import Job.JobModel Job.JobExt Job.JobOrder Job.JobTickets Job.JobWitness Flag.Flag.
+From WX Require Import Job.JobModel Job.JobExt Job.JobOrder Job.JobTickets Job.JobQuit Job.JobDrain Job.JobWitness Flag.Flag.
 Import ListNotations.
 Open Scope N_scope.
 
@@ -16,6 +17,22 @@ Theorem C07_no_ticket_lost : forall E ls,
   forall f, sentP (run E fixed ls) f -> okP (run E fixed ls) f.
 Proof. exact no_ticket_lost. Qed.
 Print Assumptions C07_no_ticket_lost.
+
+(* liveness: the eager runtime drains the job within the grace periods in effect (slack = remainder of an armed graceful stop +
+   graces of queued graceful controls + sleeps of queued async hooks); then every ticket issued so far is resolved, or is a
+   wait-for-end ticket of a command that is still running, or the job is gone *)
+Theorem C07_every_ticket_resolves : forall E ls ch,
+  forallb api_label ls = true ->
+  let w := run E fixed ls in
+  let w' := drain_run E (S (4 * mu w + nu w)) ch w in
+  now w' <= now w + slack w /\
+  forall f, sentP w f -> raisedP w' f \/ In f (on_end w') \/ ended w' = true.
+Proof. exact every_ticket_resolves. Qed.
+Print Assumptions C07_every_ticket_resolves.
+
+Theorem C07_drain_is_a_run : forall E ch w w', drain_step E ch w = Some w' -> exists l, w' = step E fixed w l /\ api_label l = true.
+Proof. exact drain_step_is_step. Qed.
+Print Assumptions C07_drain_is_a_run.
 
 (* the arm of a control settles the control's own flag: raised, or handed to a holder *)
 Theorem C07_ticket_by_completion : forall E w c f,
